@@ -40,6 +40,17 @@ impl Names {
         }
     }
 
+    /// replace every string that is the id of a known connection by its model name
+    /// (events can mention a connection before the harness has learnt its id)
+    pub fn translate(&self, v: &Value) -> Value {
+        match v {
+            Value::String(x) => Value::String(self.seg_out(x)),
+            Value::Array(a) => Value::Array(a.iter().map(|x| self.translate(x)).collect()),
+            Value::Object(o) => Value::Object(o.iter().map(|(k, x)| (k.clone(), self.translate(x))).collect()),
+            other => other.clone(),
+        }
+    }
+
     pub fn id(&mut self, name: &str) -> Uuid {
         if name == "int" {
             return Uuid::nil();
